@@ -168,7 +168,12 @@ def run(ctx, f, rep):
                 name = regex_of(x)
                 if name and idx[0] == "int":
                     n = unconditional_groups(regs[name][0])
-                    matched = any(e[0] == "discr" and c == ("eq", 0) and pathq.mentions_call(e[1], lambda y: short(y[1]) == "captures") is not None for (e, c, _, _) in p.conds[:ev.ncond]) or \
+                    def is_caps(y):
+                        return isinstance(y, tuple) and y and y[0] in ("call", "pure") and short(y[1]) == "captures"
+                    # the Captures this group is read from is the Some payload of a captures() call (match / if let / ok_or(..)? / unwrap)
+                    matched = any(isinstance(y, tuple) and y and y[0] == "downcast" and y[2] == "Some" and is_caps(pathq.unwrap_try(y[1])) for y in walk_expr(x)) or \
+                        any(e[0] == "discr" and c == ("eq", 0) and pathq.mentions_call(e[1], lambda y: short(y[1]) == "captures") is not None and
+                            pathq.mentions_call(e[1], lambda y: short(y[1]) == "branch") is not None for (e, c, _, _) in p.conds[:ev.ncond]) or \
                         pathq.mentions_call(x, lambda y: short(y[1]) == "branch") is not None
                     return (idx[1] <= n and matched), "group %d of %s `%s` (%d unconditional groups) after a successful match" % (idx[1], name, regs[name][0], n)
         if site["kind"] == "index" and ("String" in ev.name or "str" in ev.name) and len(ev.args) > 1:
